@@ -12,6 +12,14 @@ REAL_VS_STUB = {
     "stub": "libp2p host/stream/conn/conn-manager (SimHost), block store (SimStore), user hooks and listeners, callers, scripted remote peers, clock (synctest)",
 }
 
+# component worlds: what is real there (everything else of the node is simply not part of the world)
+RVS_ALLOC = {"real": "allocator (whole package)", "stub": "callers (scripted goroutines); nothing else of the node takes part"}
+RVS_MQ = {"real": "messagequeue, peermanager, allocator (behind a pass-through ledger), notifications, network/libp2p_impl.go, message(+v2,ipldbind), go-msgio", "stub": "libp2p host/stream/conn (SimHost), the callers that build messages, subscribers, the remote peers (scripted), clock (synctest)"}
+RVS_PUB = {"real": "notifications (publisher)", "stub": "subscribers (recording, gated callbacks), callers"}
+RVS_LT = {"real": "responsemanager/responseassembler (peerLinkTracker, responseBuilder, ResponseStream transactions), linktracker, messagequeue.Builder", "stub": "the peer message handler (captures every transaction into a fresh builder), subscriber, callers"}
+RVS_CODEC = {"real": "message(+v2,ipldbind), cidset, dedupkey, donotsendfirstblocks, network/libp2p_impl.go (framing, stream handling), go-msgio, go-ipld-prime codecs", "stub": "libp2p host/stream (SimHost, fragmenting delivery), both peers (scripted), clock (synctest)"}
+
+
 def _b(quick_runs, quick_wall, th_runs, th_wall):
     return {"runs": {"quick": quick_runs, "thorough": th_runs}, "wall": {"quick": quick_wall, "thorough": th_wall}}
 
@@ -86,34 +94,34 @@ prop("C01", "exploration",
 
 prop("C13", "exploration",
      "component harness: the real allocator.Allocator driven through generated histories (5-45 operations) of allocate (amounts 1,2,3,5 units and one above the per-peer limit) / release (also more than held) / release-peer by 2-4 peers under drawn total and per-peer limits, compared after every operation with an executable model written from the property statement: limits, Stats(), AllocatedForPeer, pending bytes and peers, all zero once everything is released; operations are atomic under the allocator's lock so histories are sequential and the comparison is exact; distinct = distinct trace hash (history + limits); second family (every other run): 2-3 callers, each a goroutine with a script of its own (allocate, release, release-peer, Stats, AllocatedForPeer over 1-3 peers), scheduled at operation starts and - lock-yield build of allocator/allocator.go - before every lock acquisition inside the allocator; the recorded history (invoke/return stamped with a global event counter) plus a last observation of every allocation's fate is checked for linearizability against the same model with porcupine (Illegal = violation, Unknown = inconclusive, counted)",
-     _b(3000, 60, 200000, 900), technique="seeded operation histories against an executable reference model (real component, no stubs); concurrent callers over a lock-yield build, linearizability by porcupine",
+     _b(3000, 60, 200000, 900), real_vs_stub=RVS_ALLOC, technique="seeded operation histories against an executable reference model (real component, no stubs); concurrent callers over a lock-yield build, linearizability by porcupine",
      probes=["alloc-calls-overlapped-inside-the-allocator"], lock_yield_files=["allocator/allocator.go"])
 prop("C14", "exploration",
      "same harness as C13; after every operation the state of every result channel handed out so far (granted / failed / not yet) is compared with the model's prediction: immediate grant iff it fits both limits and the peer has nothing waiting; per-peer FIFO; earliest-requested head that fits its own peer's limit first; stop when it does not fit the total; release-peer fails all of that peer's waiters at once; second family (every other run): 2-3 callers, each a goroutine with a script of its own (allocate, release, release-peer, Stats, AllocatedForPeer over 1-3 peers), scheduled at operation starts and - lock-yield build of allocator/allocator.go - before every lock acquisition inside the allocator; the recorded history (invoke/return stamped with a global event counter) plus a last observation of every allocation's fate is checked for linearizability against the same model with porcupine (Illegal = violation, Unknown = inconclusive, counted)",
-     _b(3000, 60, 200000, 900), technique="seeded operation histories against an executable reference model (real component, no stubs); concurrent callers over a lock-yield build, linearizability by porcupine",
+     _b(3000, 60, 200000, 900), real_vs_stub=RVS_ALLOC, technique="seeded operation histories against an executable reference model (real component, no stubs); concurrent callers over a lock-yield build, linearizability by porcupine",
      probes=["alloc-calls-overlapped-inside-the-allocator"], lock_yield_files=["allocator/allocator.go"])
 
 prop("C18", "exploration",
      "component harness: the real notifications publisher with 2-4 topics and 2-4 recording subscribers whose OnNext/OnClose park at scheduler gates (a slow subscriber lets commands pile up behind it); generated histories of 5-40 subscribe / publish / unsubscribe / close-topic / shutdown calls; every subscriber's per-topic sequence of events and end-of-subscription notices is compared with an executable model evaluated over the issue order; distinct = distinct trace hash",
-     _b(3000, 60, 200000, 900), probes=["c18-concurrent-subscription-checked"], lock_yield_files=["notifications/publisher.go"], technique="seeded operation histories and callback schedules against an executable reference model (real component; subscribers are stubs)")
+     _b(3000, 60, 200000, 900), real_vs_stub=RVS_PUB, probes=["c18-concurrent-subscription-checked"], lock_yield_files=["notifications/publisher.go"], technique="seeded operation histories and callback schedules against an executable reference model (real component; subscribers are stubs)")
 
 prop("C19", "exploration",
      "component harness: the real response assembler (peerLinkTracker + linktracker + responseBuilder) driven through ResponseStream transactions with a capturing message handler; generated histories (10-60 operations) interleave link traversals (6 CIDs, present or missing) of 2-5 requests of one peer with dedup-key assignments (two keys and the default scope), ignore lists, skip counts, FinishRequest and ClearRequest, then one later request that re-traverses everything; each send decision, block index and completeness status is compared with an executable model written from the statement; second family (every other run): 2-4 requests each served by a goroutine of its own, the scheduler choosing when each operation starts and - the test binary of this property is built against a scratch copy of /repo in which tools/lockyield has put a scheduling point before every lock acquisition of the tracker's files - where inside the tracker it is overtaken; two traversals of one block that are both told to send while neither request has begun to finish are a violation; distinct = distinct trace hash",
-     _b(3000, 60, 200000, 900), technique="seeded operation histories against an executable reference model (real component; message handler and subscriber are stubs); concurrent callers over a lock-yield build",
+     _b(3000, 60, 200000, 900), real_vs_stub=RVS_LT, technique="seeded operation histories against an executable reference model (real component; message handler and subscriber are stubs); concurrent callers over a lock-yield build",
      probes=["c19-traversals-overlapped-inside-the-tracker"],
      lock_yield_files=["responsemanager/responseassembler/peerlinktracker.go", "responsemanager/responseassembler/responseassembler.go", "linktracker/linktracker.go"])
 
 _MQ = "component world: the real message queue, peer manager, allocator and publisher over the simulated network (real libp2p_impl.go codec and stream handling, scripted receiving peers); 2-11 queued operations (blocks of 100-300 B and occasionally 300 KiB so that two do not fit one message, extension data, status codes) for 1-3 requests of 1-2 peers, each operation carrying a unique marker so that reports can be attributed; Connected/Disconnected notifications in drawn number and order; send faults (fail, lost ack, stall until the write deadline), connect failures, 1-3 retries; a random subset of seven internal yield points (after the reservation, after the build, on entering the done arm, before the queue exits, before Shutdown in Disconnected, in the GetProcess miss window, between GetProcess and the call) is active per run"
 prop("C15", "fault_enumeration", _MQ + "; oracle: once all queues are idle AllocatedForPeer and Stats are zero; distinct = distinct trace hash",
-     _b(2000, 60, 100000, 1200), lock_yield_files=["peermanager/peermanager.go", "messagequeue/messagequeue.go", "allocator/allocator.go", "notifications/publisher.go"], probes=["mq-conn", "mq-disc", "send-stalled"], technique="deterministic simulation of the real component with seeded fault placement and internal yield points")
+     _b(2000, 60, 100000, 1200), real_vs_stub=RVS_MQ, lock_yield_files=["peermanager/peermanager.go", "messagequeue/messagequeue.go", "allocator/allocator.go", "notifications/publisher.go"], probes=["mq-conn", "mq-disc", "send-stalled"], technique="deterministic simulation of the real component with seeded fault placement and internal yield points")
 prop("C16", "exploration", _MQ + "; oracle: every operation built into a message is listed in exactly one Sent or Error report; per attached party and message at most one Queued, exactly one Sent/Error, then exactly one close; distinct = distinct trace hash",
-     _b(2000, 60, 100000, 1200), lock_yield_files=["peermanager/peermanager.go", "messagequeue/messagequeue.go", "allocator/allocator.go", "notifications/publisher.go"], probes=["mq-conn", "mq-disc"], technique="deterministic simulation of the real component with seeded fault placement and internal yield points")
+     _b(2000, 60, 100000, 1200), real_vs_stub=RVS_MQ, lock_yield_files=["peermanager/peermanager.go", "messagequeue/messagequeue.go", "allocator/allocator.go", "notifications/publisher.go"], probes=["mq-conn", "mq-disc"], technique="deterministic simulation of the real component with seeded fault placement and internal yield points")
 prop("C17", "exploration", _MQ + "; oracle: never two live queue goroutines for one peer (observation hook at start and exit), none alive after the last disconnect, blocks reach the wire in build order; distinct = distinct trace hash",
-     _b(2000, 60, 100000, 1200), lock_yield_files=["peermanager/peermanager.go", "messagequeue/messagequeue.go", "allocator/allocator.go", "notifications/publisher.go"], probes=["mq-conn", "mq-disc", "c17-message-order-compared"], technique="deterministic simulation of the real component with seeded fault placement and internal yield points")
+     _b(2000, 60, 100000, 1200), real_vs_stub=RVS_MQ, lock_yield_files=["peermanager/peermanager.go", "messagequeue/messagequeue.go", "allocator/allocator.go", "notifications/publisher.go"], probes=["mq-conn", "mq-disc", "c17-message-order-compared"], technique="deterministic simulation of the real component with seeded fault placement and internal yield points")
 
 prop("C11", "exploration",
      "weak fit, stated as such: the verdict is a function of the message, the simulator adds stream behaviour. Two scripted peers exchange 1-6 generated well-formed messages per run on one stream through the real libp2p_impl.go / v2 codec with fragmented delivery (arbitrary byte counts per read): new/cancel/update requests with zero, negative and extreme priorities, generated selectors and 0-3 extensions (nil, null, scalars, bytes, links, nested maps and lists), responses with every defined status, every link action and 0-4 metadata entries, blocks under CIDv0/dag-pb, identity, sha2-512, dag-cbor and raw prefixes; decoded messages are compared field by field and in order with what was sent; the three extension codecs are round-tripped on generated values; distinct = distinct trace hash",
-     _b(1500, 60, 100000, 900), technique="deterministic simulation of the transport with fragmented delivery; seeded input generation for the codec")
+     _b(1500, 60, 100000, 900), real_vs_stub=RVS_CODEC, technique="deterministic simulation of the transport with fragmented delivery; seeded input generation for the codec")
 
 prop("C12", "exploration",
      "weak fit, stated as such (coverage-guided fuzzing serves the input space far better). A real node runs an honest exchange with a real responder while a scripted hostile peer writes 1-5 raw byte strings, each on a stream of its own, to the node or to a scripted receiver: encodings of generated well-formed messages mutated by bit flips, truncation, oversize length prefix, unterminated varint, insertion, splice, wrong CBOR kinds (or unchanged); oracle: the worker process survives (crash attribution by the parent), the honest exchange delivers exactly the reference result, every message that decodes carries blocks keyed by the CID of their own bytes and 16-byte request IDs, every undecodable message sent to the node is reported as a receive error; distinct = distinct trace hash",
